@@ -170,6 +170,21 @@ def damage_row(rng, full, hs, row):
     return True
 
 
+TEMPLATED = {"str": ["{{ 'x' ~ 'y' }}", "{@ 'a b' @}"], "int": ["{{ 2 + 3 }}", "{@ 7 @}"], "float": ["{{ 1.5 * 2 }}"],
+             "bool": ["{{ 1 == 2 }}", "{@ True @}"]}
+
+
+def templated_cell(rng, lf):
+    """a cell that goes through the template / native-type path of the CellParser (context {}); None: leave the cell"""
+    if lf[0] in TEMPLATED:
+        return rng.choice(TEMPLATED[lf[0]])
+    if lf[0] == "ann" and lf[1] in ("list", ("L", "str")):
+        return "{@ ['p', 'q'] @}"
+    if lf[0] == "ann" and lf[1] == ("L", "int"):
+        return "{@ [1, 2] @}"
+    return None
+
+
 def mk_sheet(rng, name, variant, schema, n_rows, bad):
     full = list(schema)
     full.insert(0 if rng.random() < 0.8 else rng.randrange(len(full) + 1), ID_FIELD)
@@ -178,6 +193,9 @@ def mk_sheet(rng, name, variant, schema, n_rows, bad):
     if not any(K.bare_list(lf) for lf in K.leaves_in_header_order(full)):
         for i in range(n_rows):
             r = K.gen_row(rng, full, hs)
+            if rng.random() < 0.2:
+                h, lf = rng.choice(list(zip(hs, K.leaves_in_header_order(full))))
+                r[h] = templated_cell(rng, lf) or r[h]
             r["ID"] = f"{name}{SEP}{i}"
             rows.append(r)
     damaged = bool(bad and rows and damage_row(rng, full, hs, rng.choice(rows)))
@@ -624,7 +642,7 @@ def run_histories(ctx, by_name):
     n_sessions = (1500 if ctx.tier == "thorough" else 120) * ctx.scale
     dist = dict(sessions=0, parsers=0, sheets=0, rows=0, outcomes={}, row_kinds={}, rows_hitting_registry=0, rows_with_data_model=0,
                 fresh_parser_comparisons=0, constructor_runs=0, constructor_outcomes={}, nested_index=0, variants={},
-                sheets_unreadable_in_isolation=0, sheets_without_rows=0, name_reused_with_other_headers=0,
+                sheets_unreadable_in_isolation=0, sheets_without_rows=0, templated_cells=0, name_reused_with_other_headers=0,
                 same_columns_other_annotations=0, with_user_module=0)
     done = []          # the sessions so far (replay of last resort)
     reported = {}
@@ -642,6 +660,7 @@ def run_histories(ctx, by_name):
                 dist["sheets"] += 1
                 dist["variants"][s["variant"]] = dist["variants"].get(s["variant"], 0) + 1
                 dist["sheets_without_rows"] += not s["rows"]
+                dist["templated_cells"] += sum(isinstance(c, str) and c[:2] in ("{{", "{@") for r in s["rows"] for c in r.values())
                 hs = tuple(s["headers"])
                 if seen_headers.setdefault(s["name"], hs) != hs:
                     dist["name_reused_with_other_headers"] += 1
